@@ -80,34 +80,88 @@ def inst_lookup(shape, n):
     return a if a is not None else c
 
 
-def has_del(m):
-    return m["del"] if m.get("del") is not None else not (m.get("get") or m.get("set"))
+_ACC_CACHE = {}
 
 
-def accessors(m):
-    """[(present, own mark on the accessor function)] in the order fget, fset, fdel"""
-    return [(bool(m.get("get")), bool(m.get("gmark"))), (bool(m.get("set")), bool(m.get("smark"))), (has_del(m), bool(m.get("dmark")))]
+def member_marked(shape, m):
+    """does the function object of a method-like member carry an explicit mark (own @expose accepted, or @expose on its class)"""
+    return bool((m["mark"] and not oracle_private(m.get("fname") or m["name"])) or
+                (shape[m["in"] + "_exposed"] and not oracle_private(m["name"])))
 
 
-def explicitly_exposed(shape, m, by_rule=False):
-    """by_rule=False: the property's reading — some explicit @expose on the member (function, property object or one
-    of its accessor functions) or on the class that defines it.  by_rule=True: Pyro5's rule — for a property the mark
-    must sit on its first accessor (fget or fset or fdel)."""
+def acc_info(shape, mid):
+    """[(present, own, pre)] for fget, fset, fdel of property member mid.  own: @expose applied to that accessor function as
+    part of this property.  pre: the function object carries _pyroExposed for a reason that is NOT an exposure of this property —
+    it is also an exposed method under another name, or it is taken over from a base class's property whose accessor is marked.
+    Computed from the shape with the pinned privacy rule (never by looking at the tree under test)."""
+    ent = _ACC_CACHE.get(id(shape))
+    if ent is None or ent[0] is not shape:
+        if len(_ACC_CACHE) > 4000:
+            _ACC_CACHE.clear()
+        plans = c02impl.accessor_plan(shape)
+        mem = shape["members"]
+        info = {}
+
+        def eff_mark(j, which):
+            """is base property j's accessor function marked by the time the subclass takes it over"""
+            mj = mem[j]
+            pres, own, pre = info[j][("get", "set", "del").index(which)]
+            first = next((k for k, a in enumerate(info[j]) if a[0]), None)
+            fname_ok = not oracle_private(mj.get("fname") or mj["name"])
+            return bool(pre or (own and fname_ok) or (mj["mark"] and fname_ok and first == ("get", "set", "del").index(which))
+                        or (shape[mj["in"] + "_exposed"] and not oracle_private(mj["name"])))
+        for i in sorted(plans, key=lambda i: (mem[i]["in"] != "base", i)):
+            row = []
+            for which in ("get", "set", "del"):
+                pl = plans[i][which]
+                if pl is None:
+                    row.append((False, False, False))
+                elif pl[0] == "own":
+                    row.append((True, bool(pl[1]), False))
+                elif pl[0] == "method":
+                    row.append((True, False, member_marked(shape, mem[pl[1]])))
+                else:
+                    row.append((True, False, eff_mark(pl[1], pl[2])))
+            info[i] = row
+        ent = (shape, info)
+        _ACC_CACHE[id(shape)] = ent
+    return ent[1].get(mid, [(False, False, False)] * 3)
+
+
+def has_acc(shape, mid, which):
+    return acc_info(shape, mid)[("get", "set", "del").index(which)][0]
+
+
+def explicitly_exposed(shape, m, by_rule=False, mid=None):
+    """by_rule=False: some explicit @expose touched the member — the function, the property object, one of its accessor
+    functions (here or in its own right) — or the class that defines it.  by_rule=True: Pyro5's rule — for a property the
+    mark must sit on its first accessor (fget or fset or fdel)."""
     if m["kind"] not in METHOD_KINDS and m["kind"] != "prop":
         return False
     fname_ok = not oracle_private(m.get("fname") or m["name"])     # @expose refuses private functions
     byclass = shape[m["in"] + "_exposed"] and not oracle_private(m["name"])
     if m["kind"] == "prop":
-        acc = [a for a in accessors(m) if a[0]]
+        if mid is None:
+            mid = next(i for i, x in enumerate(shape["members"]) if x is m)
+        acc = [a for a in acc_info(shape, mid) if a[0]]
         if not acc:
             return False
         if by_rule:
-            own = acc[0][1] or m["mark"]
-        else:
-            own = m["mark"] or any(a[1] for a in acc)
-    else:
-        own = m["mark"]
-    return bool((own and fname_ok) or byclass)
+            return bool(((acc[0][1] or m["mark"]) and fname_ok) or acc[0][2] or byclass)
+        return bool(((m["mark"] or any(a[1] for a in acc)) and fname_ok) or any(a[2] for a in acc) or byclass)
+    return bool((m["mark"] and fname_ok) or byclass)
+
+
+def accessor_legit(shape, mid, which):
+    """may the getter/setter of property mid run for an attribute request?  Yes if the property is exposed as a whole
+    (its class, the property object, or — Pyro5's rule — its first accessor function carries an explicit mark), or if the
+    accessor function that runs is itself explicitly exposed.  A mark on ANOTHER later accessor does not count."""
+    m = shape["members"][mid]
+    if explicitly_exposed(shape, m, True, mid):
+        return True
+    fname_ok = not oracle_private(m.get("fname") or m["name"])
+    pres, own, pre = acc_info(shape, mid)[("get", "set", "del").index(which)]
+    return bool(pres and ((own and fname_ok) or pre))
 
 
 def servable(shape, kind, n):
@@ -126,10 +180,10 @@ def servable(shape, kind, n):
     if i is None:
         return None
     m = shape["members"][i]
-    if m["kind"] == "prop" and explicitly_exposed(shape, m, True):
-        if kind == "getattr" and m["get"]:
+    if m["kind"] == "prop" and explicitly_exposed(shape, m, True, i):
+        if kind == "getattr" and has_acc(shape, i, "get"):
             return (i, "get")
-        if kind == "setattr" and m["set"]:
+        if kind == "setattr" and has_acc(shape, i, "set"):
             return (i, "set")
     return None
 
@@ -139,13 +193,12 @@ ACC_OF_KIND = {"call": "call", "batch": "call", "getattr": "get", "setattr": "se
 
 
 def loosely_allowed(shape, kind, names, e):
-    """the property allows this effect although Pyro5's first-accessor rule would not serve it: an accessor of a
-    public property that carries SOME explicit mark, asked for by an attribute request"""
+    """the property allows this effect although Pyro5's first-accessor rule would not serve it: the accessor function that
+    ran carries an explicit mark itself (e.g. @expose below @x.setter of a property whose getter is unmarked)"""
     mid, acc = e
     m = shape["members"][mid]
     return (m["kind"] == "prop" and kind in ("getattr", "setattr") and acc == ACC_OF_KIND[kind] and names and names[0] == m["name"]
-            and class_lookup(shape, m["name"]) == mid and not oracle_private(m["name"]) and explicitly_exposed(shape, m, False)
-            and bool(m.get("get") if acc == "get" else m.get("set")))
+            and class_lookup(shape, m["name"]) == mid and not oracle_private(m["name"]) and accessor_legit(shape, mid, acc))
 
 
 def expected_metadata(shape):
@@ -263,6 +316,9 @@ def oracle(case, obs):
                 bad.append((SIG_PRIVPROP, "a %s request reached the property bound to the private name %r" % (kind, m["name"]), sub([r])))
             elif m["name"] in names and oracle_private(m["name"]):
                 bad.append(("private-member-ran", "request %s %r ran the private member %r" % (kind, names, m["name"]), sub([r])))
+            elif m["name"] in names and m["kind"] == "prop" and acc in ("get", "set") and not accessor_legit(shape, mid, acc):
+                bad.append(("unexposed-accessor-ran", "request %s %r%s ran the %ster of property %r: neither the property (class, property object, "
+                            "first accessor) nor that accessor function was ever exposed" % (kind, names, shape_note, acc, m["name"]), sub([r])))
             elif m["name"] in names and not explicitly_exposed(shape, m):
                 bad.append(("unexposed-member-ran", "request %s %r%s ran the unexposed member %r (%s)" % (kind, names, shape_note, m["name"], m["kind"]), sub([r])))
             elif m["name"] in names and e in exp_log:
@@ -316,7 +372,7 @@ def oracle(case, obs):
         if "getattr" in kinds and "setattr" in kinds:
             served = any(x[0] for x in kinds["getattr"]) or any(x[0] for x in kinds["setattr"])
             m_i = class_lookup(shape, n)
-            delonly = m_i is not None and mem[m_i]["kind"] == "prop" and not mem[m_i]["get"] and not mem[m_i]["set"]
+            delonly = m_i is not None and mem[m_i]["kind"] == "prop" and not has_acc(shape, m_i, "get") and not has_acc(shape, m_i, "set")
             if (n in md["attrs"]) != served and not delonly:
                 bad.append(("metadata-attrs-mismatch", "attribute %r: advertised=%s served=%s" % (n, n in md["attrs"], served),
                             sub([x[1] for x in kinds["getattr"] + kinds["setattr"]])))
@@ -334,8 +390,14 @@ def oracle_history(case, obs):
     for k, (op, o) in enumerate(zip(case["ops"], obs["ops"])):
         sh = shapes[objects[op["obj"]]]
         if op["op"] == "meta":
-            for sig, what in oracle_metadata(sh, o["meta"], "get_metadata of object %d (class %d) at step %d" % (op["obj"], objects[op["obj"]], k)):
-                bad.append((sig, what, case))
+            answers = [(n, "get_metadata re-entered from inside the scan of step %d" % k) for n in o.get("nested", [])] + [(o, "get_metadata at step %d" % k)]
+            for a, where in answers:
+                if a.get("meta") is None:
+                    if not any(m["kind"] == "raiser" for m in sh["members"]):
+                        bad.append(("metadata-unavailable", "%s of object %d raised %s" % (where, op["obj"], a.get("meta_error")), case))
+                    continue
+                for sig, what in oracle_metadata(sh, a["meta"], "%s of object %d (class %d)" % (where, op["obj"], objects[op["obj"]])):
+                    bad.append((sig, what, case))
         else:
             methods, attrs, may = expected_metadata(sh)
             pseudo = {"kind": "shape", "shape": sh, "ser": case.get("ser", "serpent"), "reqs": [op["req"]]}
@@ -353,7 +415,10 @@ KIND = {"method": "KMethod", "static": "KStatic", "classm": "KClassM", "cattr": 
 def c_member(i, m):
     k = m["kind"]
     if k == "prop":
-        kk = "(KProp %s %s %s)" % tuple(("(Some %s)" % cbool(mk) if pres else "None") for pres, mk in accessors(m))
+        kk = "(KProp %s %s %s)" % tuple(("(Some {| a_own := %s; a_pre := %s |})" % (cbool(own), cbool(pre)) if pres else "None")
+                                        for pres, own, pre in acc_info(SHAPE_BEING_PRINTED[0], i))
+    elif k == "raiser":
+        kk = "(KRaiser %s)" % {"once": "ROnce", "always": "RAlways", "park": "RPark"}[m.get("raises", "once")]
     elif k == "helper":
         kk = "(KHelper %s %s)" % (cbool(m.get("hexp", False)), cbool(m.get("hcall", False)))
     elif k == "hook":
@@ -365,7 +430,11 @@ def c_member(i, m):
         ctext(m.get("fname") or m["name"]), cbool(m.get("oneway", False)))
 
 
+SHAPE_BEING_PRINTED = [None]
+
+
 def c_shape(shape):
+    SHAPE_BEING_PRINTED[0] = shape
     return "{| s_base_exposed := %s; s_sub_exposed := %s; s_members := %s |}" % (
         cbool(shape["base_exposed"]), cbool(shape["sub_exposed"]), clist([c_member(i, m) for i, m in enumerate(shape["members"])]))
 
@@ -403,11 +472,18 @@ def c_quirks(q):
 
 def c_history(case, obs, q):
     ops = []
+
+    def hmeta(i, o):
+        md = o.get("meta")
+        if md is None:
+            return "HMeta %s false [] [] []" % cnat(i)
+        return "HMeta %s true %s %s %s" % (cnat(i), clist([ctext(x) for x in md["methods"]]),
+                                           clist([ctext(x) for x in md["oneway"]]), clist([ctext(x) for x in md["attrs"]]))
     for op, o in zip(case["ops"], obs["ops"]):
         if op["op"] == "meta":
-            md = o["meta"]
-            ops.append("HMeta %s %s %s %s" % (cnat(op["obj"]), clist([ctext(x) for x in md["methods"]]),
-                                             clist([ctext(x) for x in md["oneway"]]), clist([ctext(x) for x in md["attrs"]])))
+            for n in o.get("nested", []):       # a get_metadata that ran inside this call's scan completed first
+                ops.append(hmeta(op["obj"], n))
+            ops.append(hmeta(op["obj"], o))
         elif o["wire"] == "ok":
             r = op["req"]
             ops.append("HReq %s %s {| o_reply := %s; o_log := %s |}" % (
@@ -498,7 +574,69 @@ def gen_shape(rng):
             members.insert(rng.randrange(len(members) + 1),
                            {"name": hn, "kind": "hook", "in": where, "mark": rng.random() < 0.3, "fname": hn, "oneway": False,
                             "get": True, "set": True, "hexp": False})
-    return {"base_exposed": rng.random() < 0.4, "sub_exposed": rng.random() < 0.4, "members": members}
+    shape = {"base_exposed": rng.random() < 0.4, "sub_exposed": rng.random() < 0.4, "members": members}
+    if rng.random() < 0.3:
+        add_sources(rng, shape)
+    return shape
+
+
+def add_sources(rng, shape):
+    """give a property accessor functions that come from elsewhere: a function that is at the same time a method of the same
+    class under its own name (old-style  target = property(get_target, set_target)), or the accessors of the base class's
+    property of the same name (Base.prop.getter(f) in the subclass)"""
+    mem = shape["members"]
+    own = c02impl.owners(shape)
+    props = [i for i, m in enumerate(mem) if m["kind"] == "prop" and own.get((m["in"], m["name"])) == i and not is_dunder(m["name"])]
+    if not props:
+        return
+    i = rng.choice(props)
+    m = mem[i]
+    if rng.random() < 0.6:
+        # (a) method-backed accessors
+        for key, flag in rng.sample([("gsrc", "get"), ("ssrc", "set"), ("dsrc", "del")], rng.choice([1, 1, 2])):
+            cands = [x for x in mem if x["kind"] in ("method", "static") and x["in"] == m["in"] and own.get((x["in"], x["name"])) == mem.index(x)
+                     and not is_dunder(x["name"]) and not any(p.get(k) == "m:" + x["name"] for p in mem for k in ("gsrc", "ssrc", "dsrc"))]
+            if cands and rng.random() < 0.6:
+                f = rng.choice(cands)
+            else:
+                fn = rng.choice(["", "_"]) + flag + "_" + m["name"].strip("_")
+                if (m["in"], fn) in own or any(x["name"] == fn for x in mem):
+                    continue
+                f = {"name": fn, "kind": "method", "in": m["in"], "mark": rng.random() < 0.6, "fname": fn, "oneway": False,
+                     "get": True, "set": True, "hexp": False}
+                mem.append(f)
+                own[(m["in"], fn)] = len(mem) - 1
+            m[key] = "m:" + f["name"]
+            if flag != "del":
+                m[flag] = True
+            else:
+                m["del"] = True
+        first = next((k for k, fl in (("gsrc", "get"), ("ssrc", "set"), ("dsrc", "del"))
+                      if (m.get(fl) if fl != "del" else has_del_flag(m))), None)
+        if first and m.get(first):
+            m["mark"] = False        # @expose on the property object would mark the shared method function as well
+    else:
+        # (b) re-declared accessors across base / subclass
+        if m["in"] != "sub":
+            m["in"] = "sub" if (("sub", m["name"]) not in own) else m["in"]
+        if m["in"] != "sub":
+            return
+        if ("base", m["name"]) not in own or mem[own[("base", m["name"])]]["kind"] != "prop":
+            if ("base", m["name"]) in own:
+                return
+            b = {"name": m["name"], "kind": "prop", "in": "base", "mark": rng.random() < 0.4, "fname": m["name"], "oneway": False,
+                 "get": True, "set": rng.random() < 0.8, "hexp": False, "del": rng.random() < 0.4,
+                 "gmark": rng.random() < 0.2, "smark": rng.random() < 0.4, "dmark": rng.random() < 0.3}
+            mem.insert(0, b)
+        keep = rng.choice(["get", "set"])       # the accessor the subclass re-declares itself
+        for key, flag in (("gsrc", "get"), ("ssrc", "set"), ("dsrc", "del")):
+            if flag != keep:
+                m[key] = "base"
+        m[keep] = True
+
+
+def has_del_flag(m):
+    return m["del"] if m.get("del") is not None else not (m.get("get") or m.get("set"))
 
 
 def gen_history(rng, reserved):
@@ -512,11 +650,16 @@ def gen_history(rng, reserved):
             sib = json.loads(json.dumps(rng.choice(shapes)))
             sib["base_exposed"], sib["sub_exposed"] = rng.random() < 0.5, rng.random() < 0.5
             for m in sib["members"]:
-                if m["kind"] in c02impl.METHOD_KINDS + ("prop",) and rng.random() < 0.5:
+                if m["kind"] in c02impl.METHOD_KINDS + ("prop",) and rng.random() < 0.5 and not any(m.get(k) for k in ("gsrc", "ssrc", "dsrc")):
                     m["mark"] = not m["mark"]
             shapes.append(sib)
         else:
             shapes.append(gen_shape(rng))
+    for sh in shapes:
+        if rng.random() < 0.3 and not any(m["name"] == "kaboom" for m in sh["members"]):
+            # a class attribute whose access raises (once / always) or re-enters get_metadata during the metadata scan
+            sh["members"].append({"name": "kaboom", "kind": "raiser", "in": rng.choice(["base", "sub"]), "mark": False, "fname": "kaboom",
+                                  "oneway": False, "get": True, "set": True, "hexp": False, "raises": rng.choice(["once", "once", "always", "park"])})
     objects = [rng.randrange(k) for _ in range(rng.choice([2, 3, 4, 5]))]
     for ci in range(k):
         if ci not in objects:
@@ -723,6 +866,31 @@ def targeted(reserved):
         out.append({"kind": "shape", "ser": "serpent", "shape": {"base_exposed": False, "sub_exposed": False, "members": mem},
                     "reqs": allkinds(["ok", "no", "p", "q", "ia", "_x", "missing", "__class__", "__getattr__", "__getattribute__", "a.b", {"ns": "int"}]) +
                     allkinds(["missing", "ok"], True) + [{"kind": "batch", "oneway": False, "names": ["ok", "missing", "ok"]}]})
+    # accessor functions that carry a mark for a reason that is not an exposure of the property (seeded change C02_8):
+    # old-style property(get_x, set_x) over functions that are also (exposed / unexposed) methods; Base.prop.getter(f) in a subclass
+    src = [M("get_t", "method"), M("set_t", "method", mark=True), M("target", "prop", gsrc="m:get_t", ssrc="m:set_t"),
+           M("set_u", "method", mark=True), M("u", "prop", ssrc="m:set_u"), M("_get_v", "method", mark=True, fname="get_v"), M("v", "prop", gsrc="m:_get_v"),
+           M("w", "prop", get=False, ssrc="m:set_w"), M("set_w", "method", mark=True), M("del_x", "method", mark=True), M("x", "prop", dsrc="m:del_x"),
+           M("y", "prop", get=False, set=False, dsrc="m:del_y"), M("del_y", "static", mark=True), M("get_z", "method"), M("z", "prop", gsrc="m:get_z", smark=True)]
+    out.append({"kind": "shape", "ser": "serpent", "shape": {"base_exposed": False, "sub_exposed": False, "members": src},
+                "reqs": allkinds([m["name"] for m in src]) + allkinds(["target", "u", "w"], True)})
+    red = [M("bp", "prop", **{"in": "base"}), M("bp", "prop", ssrc="base", dsrc="base"), M("bq", "prop", **{"in": "base", "del": True}),
+           M("bq", "prop", gsrc="base", dsrc="base"), M("br", "prop", mark=True, **{"in": "base"}), M("br", "prop", ssrc="base"),
+           M("bs", "prop", smark=True, **{"in": "base"}), M("bs", "prop", ssrc="base"), M("bt", "prop", **{"in": "base"}), M("bt", "prop", gsrc="base", smark=True)]
+    for be, se in ((True, False), (False, False), (False, True)):
+        out.append({"kind": "shape", "ser": "serpent", "shape": {"base_exposed": be, "sub_exposed": se, "members": red},
+                    "reqs": allkinds(["bp", "bq", "br", "bs", "bt"]) + allkinds(["bp", "bq"], True)})
+    # a class attribute that raises while the metadata scan inspects it (once / always) or re-enters get_metadata (seeded change C02_9)
+    for mode in ("once", "always", "park"):
+        for where in ("sub", "base"):
+            rs = {"base_exposed": True, "sub_exposed": False, "members": [
+                M("alpha", "method", **{"in": "base"}), M("kaboom", "raiser", raises=mode, **{"in": where}), M("omega", "method", mark=True),
+                M("zeta", "prop", mark=True), M("beta", "prop", **{"in": "base"})]}
+            mk_ = lambda i: {"op": "meta", "obj": i}
+            rq_ = lambda i, k, n: {"op": "req", "obj": i, "req": {"kind": k, "oneway": False, "names": [n]}}
+            out.append({"kind": "history", "ser": "serpent", "shapes": [rs, rs], "objects": [0, 0, 1],
+                        "ops": [mk_(0), mk_(1), rq_(0, "call", "omega"), rq_(0, "call", "alpha"), rq_(0, "getattr", "zeta"), rq_(0, "call", "kaboom"),
+                                rq_(1, "getattr", "kaboom"), mk_(0), mk_(2), mk_(2), rq_(2, "call", "omega")]})
     # same-named classes in one daemon: two objects of one class, one of a sibling class
     s1 = {"base_exposed": False, "sub_exposed": True, "members": [M("ok", "method"), M("p", "prop"), M("only1", "method")]}
     s2 = {"base_exposed": False, "sub_exposed": False, "members": [M("ok", "method"), M("p", "prop", mark=True), M("only2", "method", mark=True)]}
@@ -839,7 +1007,9 @@ def execute(ctx, rig, cases, model_ok, res, q, localise=True):
                 if o["log"]:
                     res.count("ran:" + ",".join(sorted(set(e[1] for e in o["log"]))))
             if case["kind"] == "history":
-                nmeta = sum(1 for op in case["ops"] if op["op"] == "meta")
+                nmeta = sum(1 + len(o.get("nested", [])) for op, o in zip(case["ops"], obs["ops"]) if op["op"] == "meta")
+                if any(m["kind"] == "raiser" for sh in case["shapes"] for m in sh["members"]):
+                    res.count("history_with_raising_attribute")
                 res.evaluations += nmeta
                 res.count("history:get_metadata", nmeta)
                 res.count("history_classes_%d" % len(case["shapes"]))
@@ -848,6 +1018,8 @@ def execute(ctx, rig, cases, model_ok, res, q, localise=True):
                 for m in case["shape"]["members"]:
                     if m["kind"] in ("hook", "helper") or (m["kind"] == "prop" and (m.get("gmark") or m.get("smark") or m.get("dmark"))):
                         res.count("shape_has:" + ("accessor-mark" if m["kind"] == "prop" else m["kind"]))
+                    if m["kind"] == "prop" and any(m.get(k) for k in ("gsrc", "ssrc", "dsrc")):
+                        res.count("shape_has:accessor-from-elsewhere")
             badreqs = [(r, o) for r, o in req_obs(case, obs) if o["wire"] == "ok" and not representable(o)]
             if badreqs:
                 res.mismatches.append({"component": "C02:outcome-vocabulary", "case": case, "impl": badreqs[0][1]})
